@@ -125,21 +125,36 @@ class World:
         return self.ideal.registry.sign(self.keys[i].public_key, message)
 
     # -- chain state ----------------------------------------------------------------------------
-    def state(self, pv: List[int], fv: int = 9) -> Any:
-        """CoinState holding R, P, F. pv = the four symbolic values of P's unspent outputs."""
+    def state(self, pv: List[int], fv: int = 9, pts: Any = None, ptarget: Any = None, start_ts: Any = None) -> Any:
+        """CoinState holding R, P, F. pv = the four symbolic values of P's unspent outputs; fv = value only the sibling
+        fork holds; pts / ptarget = parent's timestamp / target (symbolic allowed); start_ts = (ts on P's view, ts on F's
+        view) of the block at height h - 10080 (the retarget period's first block), which differs between the two views."""
         env, dt = self.env, self.dt
         k = self.keys
+        if pts is not None or ptarget is not None:
+            self.P = env.block(self.h - 1, self.R.hash(), [self.cbP], tok(BLK, 1), ts=2000 if pts is None else pts,
+                               target=MAXTARGET if ptarget is None else ptarget)
         outs_P = [((dt.OutputReference(i, n)), dt.Output(pv[j], k[o])) for j, (i, n, o) in enumerate(UNSPENT_AT_P)]
         cb = lambda tx: (dt.OutputReference(tx.hash(), 0), tx.outputs[0])  # noqa
         uR = env.mk_map(outs_P + [(dt.OutputReference(tok(TX, 14), 0), dt.Output(7, k[0])), cb(self.cbR)])
         uP = env.mk_map(outs_P + [cb(self.cbR), cb(self.cbP)])
         uF = env.mk_map(outs_P[:2] + [(dt.OutputReference(tok(TX, 13), 0), dt.Output(fv, k[0])), cb(self.cbR), cb(self.cbF)])
         R, P, F = self.R, self.P, self.F
+        exP: List[Tuple[Any, Any]] = []
+        exF: List[Tuple[Any, Any]] = []
+        blocks = {R.hash(): R, P.hash(): P, F.hash(): F}
+        if start_ts is not None:
+            sh = self.h - RETARGET
+            self.SP = env.block(sh, tok(BLK, 30), [self.cbR], tok(BLK, 31), ts=start_ts[0])
+            self.SF = env.block(sh, tok(BLK, 30), [self.cbR], tok(BLK, 32), ts=start_ts[1])
+            exP, exF = [(sh, self.SP)], [(sh, self.SF)]
+            blocks[self.SP.hash()] = self.SP
+            blocks[self.SF.hash()] = self.SF
         iR = env.mk_map([(R.height, R)])
-        iP = env.mk_map([(R.height, R), (P.height, P)])
-        iF = env.mk_map([(R.height, R), (F.height, F)])
+        iP = env.mk_map(exP + [(R.height, R), (P.height, P)])
+        iF = env.mk_map(exF + [(R.height, R), (F.height, F)])
         head = {"P": P, "F": F}[self.served_head]
-        return env.state({R.hash(): R, P.hash(): P, F.hash(): F},
+        return env.state(blocks,
                          {R.hash(): uR, P.hash(): uP, F.hash(): uF},
                          {R.hash(): iR, P.hash(): iP, F.hash(): iF},
                          {P.hash(): P, F.hash(): F}, head.hash())
@@ -213,11 +228,12 @@ class World:
             xs = nxt
         return xs[0]
 
-    def ref_evidence(self, summary: Any, height: int, parent: Any, state: Any, txs: List[Any]) -> Any:
+    def ref_evidence(self, summary: Any, height: int, parent: Any, state: Any, txs: List[Any], sh_override: Any = None) -> Any:
         """Evidence as the property states it: scrypt over (summary, height), sample from the PARENT's ancestor view,
-        blake2 over summary-hash || sample || serialized transaction list."""
+        blake2 over summary-hash || sample || serialized transaction list. sh_override: a forged summary hash from which
+        the other two fields are derived consistently."""
         dt = self.dt
-        sh = self.scrypt(summary.serialize(), height.to_bytes(8, "big"))
+        sh = self.scrypt(summary.serialize(), height.to_bytes(8, "big")) if sh_override is None else sh_override
         idx = state.block_by_height_by_hash[parent.hash()]
         if height == 0:
             sample = b"\x00" * 32
@@ -229,15 +245,24 @@ class World:
         return dt.PowEvidence(sh, sample, bh)
 
     def candidate(self, state: Any, txs: List[Any], ts: Any, parent: Optional[Any] = None, height: Optional[Any] = None,
-                  target: Optional[bytes] = None, bid: bytes = tok(BLK, 5), merkle: Optional[bytes] = None,
-                  evidence: Optional[Any] = None, nonce: int = 0) -> Any:
+                  target: Optional[bytes] = None, bid: Optional[bytes] = tok(BLK, 5), merkle: Optional[bytes] = None,
+                  evidence: Optional[Any] = None, nonce: int = 0, forge_sh: Any = None) -> Any:
         dt = self.dt
         parent = parent if parent is not None else self.P
         height = self.h if height is None else height
-        summary = dt.BlockSummary(height, parent.hash(), merkle if merkle is not None else self.ref_merkle([t.hash() for t in txs]),
-                                  ts, target if target is not None else MAXTARGET, nonce)
-        ev = evidence if evidence is not None else self.ref_evidence(summary, height, parent, state, txs)
-        return dt.Block(dt.BlockHeader(summary, ev), txs, hash=bid)
+        tgt = target if target is not None else MAXTARGET
+        mrk = merkle if merkle is not None else self.ref_merkle([t.hash() for t in txs])
+        tries = 0
+        while True:
+            summary = dt.BlockSummary(height, parent.hash(), mrk, ts, tgt, nonce)
+            ev = evidence if evidence is not None else self.ref_evidence(summary, height, parent, state, txs, sh_override=forge_sh)
+            hdr = dt.BlockHeader(summary, ev)
+            # real mode: the adversary is given proof of work - grind the nonce until the real header hash is below the target
+            if not self.real or tries >= 400 or hdr.hash() < tgt:
+                break
+            nonce += 1
+            tries += 1
+        return dt.Block(hdr, txs, hash=bid)
 
 
 def utxo_total(m: Any) -> int:
